@@ -110,6 +110,13 @@ Theorem algD_safe :
 Proof. exact algD_safe_proof. Qed.
 Print Assumptions algD_safe.
 
+(* observation exposed by the proof (NOT part of C19): Vitter's D as coded never selects position N - 1 *)
+Theorem algD_never_last :
+  forall (n N : Z) (evs : list ev) (arr : list Z),
+    1 <= n -> algD n N evs = Some arr -> Forall (fun x => x < N - 1) arr.
+Proof. exact algD_never_last_proof. Qed.
+Print Assumptions algD_never_last.
+
 Theorem algD_step_terminates :
   forall (evs : list ev) (qu1 : Z),
     existsb (accepting qu1) evs = true <-> algD_pick evs qu1 <> None.
